@@ -389,8 +389,24 @@ func reviseCopy(spec *core.Spec) {
 	cp2.Nodes["zz-added"] = &core.Node{ActionSource: &core.ActionSource{Interpreter: "ecmascript", Source: "return _.bindings;"},
 		Branches: &core.Branches{Branches: []*core.Branch{{Target: "zz-added-2"}}}}
 	cp2.Nodes["zz-added-2"] = &core.Node{}
-	if err := cp2.Compile(context.Background(), interpreters(), false); err == nil && c13LateErrors(cp2) {
+	err := cp2.Compile(context.Background(), interpreters(), false)
+	if err == nil && c13LateErrors(cp2) {
 		atomic.StoreInt32(&reviseLate, 1)
+	}
+	if err != nil {
+		return
+	}
+	// the compiled revision is adjusted before it would be installed: its patterns are its own (Compile parses every
+	// pattern into a fresh value), so the version in use keeps matching as it did
+	for _, n := range cp2.Nodes {
+		if n == nil || n.Branches == nil {
+			continue
+		}
+		for _, b := range n.Branches.Branches {
+			if b != nil {
+				scribble(b.Pattern)
+			}
+		}
 	}
 }
 
